@@ -69,6 +69,18 @@ Definition check_tmo (args : list sx) : verdict :=
                 end in
               (* the connection was closed by the server; when the time-out struck, without another word *)
               let close_ok := tmo_flag "closed" obs && (negb expire || after_empty) in
+              (* control cases (nothing times out): the replies the CLIENT received are the expected ones -
+                 a reply that the server believes it has written but that never arrived is a lost reply *)
+              let received_ok :=
+                if expire then true
+                else match assoc1 "received" obs, assoc1 "expect-codes" expect with
+                     | Some r, Some (SL l) =>
+                         match sx_bytes r, map_opt sx_N l with
+                         | Some rb, Some want => if list_eq_dec N.eq_dec (reply_codes rb) want then true else false
+                         | _, _ => true
+                         end
+                     | _, _ => true
+                     end in
               let '(syn_viol, syn_kf) := oracle_syntax true evs in
               let viol :=
                 dedup (oracle_sessions cfg evs ++ oracle_size cfg (evs ++ dels)
@@ -78,6 +90,7 @@ Definition check_tmo (args : list sx) : verdict :=
                        ++ focus_oracle expect evs dels
                        ++ (if msg_negative_ok expect evs then [] else [bs "C07"])
                        ++ (if close_ok || negb ran then [] else [focus])
+                       ++ (if received_ok || negb ran then [] else [focus; bs "C04"; bs "C17"])
                        ++ (if tmo_flag "waited" obs then [] else [bs "C08"; bs "C20"])
                        ++ (if tmo_flag "served" obs then [] else [bs "C04"; bs "C20"])
                        ++ syn_viol) in
